@@ -2,6 +2,8 @@
 
 package discovery
 
+import "github.com/aws/aws-sdk-go-v2/service/s3"
+
 // VerifC33Lister returns the REAL s3Lister (discovery.go) reading bucket "b" of this endpoint.
 func (v *VerifC33S3) VerifC33Lister(namespace string) Lister {
 	return &s3Lister{client: v.client(), bucket: "b", prefix: normalizePrefix(namespace)}
@@ -9,3 +11,6 @@ func (v *VerifC33S3) VerifC33Lister(namespace string) Lister {
 
 // VerifC33FooterMagic is what a completed segment ends with.
 const VerifC33FooterMagic = segmentFooterMagic
+
+// VerifC33Client is the real aws-sdk S3 client over this endpoint (for the module's real s3Decoder).
+func (v *VerifC33S3) VerifC33Client() *s3.Client { return v.client() }
